@@ -323,10 +323,16 @@ func c07Controller(ctx *Ctx) {
 			cand[k], cand[v] = true, true
 		}
 	}
+	limited := LoopSpec{Kind: "direct"}
+	if r.Intn(2) == 0 {
+		// the direct algorithm with the documented per-cycle limit: from one state the step is bounded, never reversed
+		limited = LoopSpec{Kind: "ratelimit", M: pick(r, 1, 5, 10, 40, 1+r.Intn(100))}
+	}
 	for d0 := range cand {
 		prevW, prevC := -1, -1
 		for c := 0; c <= 255; c++ {
 			one := *sc
+			one.Loop = limited
 			one.InitPwm = d0
 			one.Steps = []CycleStep{{Curve: c, DtMs: 200, Polls: 0}}
 			written := -1
@@ -341,7 +347,7 @@ func c07Controller(ctx *Ctx) {
 				break
 			}
 			if written < prevW {
-				ctx.Violation("controller:written-decreases-with-curve-from-same-state:"+sc.Fan.Label()+":"+sc.Map.Kind,
+				ctx.Violation("controller:written-decreases-with-curve-from-same-state:"+sc.Fan.Label()+":"+sc.Map.Kind+":"+limited.Kind,
 					fmt.Sprintf("fan reporting %d before the cycle: curve %d -> fan at %d, curve %d -> fan at %d; map %v", d0, prevC, prevW, c, written, m), map[string]interface{}{"scenario": sc, "fanReports": d0, "curve1": prevC, "curve2": c})
 				return
 			}
